@@ -199,6 +199,24 @@ func TestC04_Agreement(t *testing.T) {
 		if n == 0 {
 			c.Nil = rapid.Bool().Draw(rt, "nil")
 		}
+		if rapid.IntRange(0, 11).Draw(rt, "long") == 0 {
+			// a long list: a few generated entries repeated up to a length around the sizes at which
+			// implementations switch strategy (32, 64, 128, 256, ...), invalid ones mostly near the end
+			base := make([]Entry, rapid.IntRange(1, 4).Draw(rt, "longBase"))
+			for i := range base {
+				base[i] = drawEntry(rt, fmt.Sprintf("lb%d", i), true)
+			}
+			target := rapid.SampledFrom([]int{31, 33, 63, 64, 65, 66, 67, 100, 127, 129, 255, 257, 300}).Draw(rt, "longLen")
+			for len(c.List) < target {
+				c.List = append(c.List, base[len(c.List)%len(base)])
+			}
+			for i, k := 0, rapid.IntRange(0, 3).Draw(rt, "longBad"); i < k; i++ {
+				pos := target - 1 - rapid.IntRange(0, 5).Draw(rt, fmt.Sprintf("longBadPos%d", i))
+				c.List[pos] = drawEntry(rt, fmt.Sprintf("lbad%d", i), false)
+			}
+			n = 0
+			rec.Class("long-list")
+		}
 		for i := 0; i < n; i++ {
 			if i > 0 && rapid.IntRange(0, 5).Draw(rt, fmt.Sprintf("dup%d", i)) == 0 {
 				c.List = append(c.List, rapid.SampledFrom(c.List).Draw(rt, fmt.Sprintf("dupOf%d", i)))
@@ -231,6 +249,7 @@ func TestC04_Agreement(t *testing.T) {
 		if nCompound > 0 {
 			classes = append(classes, "list-has-compound")
 		}
+		n = len(c.List)
 		if n > 0 && nInvalid == 0 && nCompound == 0 {
 			classes = append(classes, "list-all-valid-single")
 		}
